@@ -301,7 +301,7 @@ def check(ctx):
     fired = {"lock_cases": 0, "free_cases": 0, "first_sight_decisions": 0, "kept_lifecycles": 0, "lifecycle_not_kept": 0,
              "written_messages": 0, "selected_but_lifecycle_not_kept": 0, "cases_without_file": 0, "cases_with_info_texts": 0,
              "resumed_lifecycle_kept": 0, "window_excludes_message": 0, "filter_excludes_message": 0, "disabled_plugin": 0,
-             "ambiguous_entry_choice": 0}
+             "ambiguous_entry_choice": 0, "free_mode_written_messages": 0}
     for k, evs in cases.items():
         h = evs[0]["hdr"]
         fired["lock_cases" if h["mode"] == "lock" else "free_cases"] += 1
@@ -310,6 +310,8 @@ def check(ctx):
         end = evs[-1] if evs[-1]["ev"] == "end" else None
         wr = {e["i"] for e in evs if e["ev"] == "wr"}
         fired["written_messages"] += len(wr)
+        if h["mode"] != "lock":
+            fired["free_mode_written_messages"] += len(wr)
         if end is not None and not end["file"]:
             fired["cases_without_file"] += 1
         if end is not None and end["file"] and h["ninfo"] > 0:
